@@ -1526,3 +1526,12 @@ FUNCTIONS += [
     dict(name='member_is_printer', cxx='the printer lambda of match_member_is (matcher/member_is.hpp)', file='include/trompeloeil/matcher/member_is.hpp',
          kind='printers', functions=['match_member_is'], module='MemberIsPrinter', header=''),
 ]
+
+# the shipped tracer (stream_tracer.hpp): one record = location, newline, the text trace_agent built, newline
+FUNCTIONS += [
+    dict(name='stream_tracer_trace', cxx='stream_tracer::trace', file='include/trompeloeil/stream_tracer.hpp', module='StreamTracerTrace',
+         header=r'trace\(\s*char const \*file,\s*unsigned long line,\s*std::string const &call\)\s*override',
+         lean_sig=': List String', prologue=['let mut out : List String := []'], epilogue='return out', no_respell=True,
+         pre=[(r'location\{file, line\}', 'LOCATION(file, line)')],
+         stmt_rules=[(r"^stream << LOCATION\(file, line\) << '\\n' << call << '\\n'$", 'out := out ++ ["location{file, line}", "newline", "call", "newline"]')]),
+]
